@@ -48,7 +48,7 @@ META = dict(
               "mergeSort lemmas) + differential correspondence on engine runs and synthetic record lists + engine oracle",
 )
 MODULE = "OPM.Properties.C15"
-REQUIRED = ["OPM.C15.runlog_producible", "OPM.C15.runlog_sorted", "OPM.C15.runlog_ids_distinct",
+REQUIRED = ["OPM.C15.runlog_producible", "OPM.C15.runlog_producible_iff", "OPM.C15.runlog_sorted", "OPM.C15.runlog_ids_distinct",
             "OPM.C15.runlog_items_wellformed", "OPM.C15.completed_state_has_completed_item",
             "OPM.C15.tracking_invariant_init", "OPM.C15.tracking_invariant_step", "OPM.C15.reachable_good",
             "OPM.C15.C15_run_log", "OPM.C15.mark_completed_records_completed", "OPM.C15.C15_asis_counterexample"]
